@@ -40,6 +40,11 @@ type Script struct {
 	MulOfQuotient []int
 	CallSites         []CallSite
 	curGuard          string
+	curInLoop         bool
+	funcs             map[string][]ast.Stmt // bodies of named functions defined in the chunk
+	inlining          map[string]bool
+	inlined           map[string]bool
+	lineOverride      int
 	sawReturn         bool // a return statement was seen earlier in source order: later statements are not unconditional
 }
 
@@ -68,6 +73,20 @@ func ParseBytes(path string, src []byte) (*Script, error) {
 	}
 	s := &Script{Path: path}
 	s.walk(chunk, true, "", false)
+	// functions that are defined but never called from the chunk are still part of the script
+	// (they may be called by name from Go or from other functions): account for their bodies once
+	var names []string
+	for n := range s.funcs {
+		names = append(names, n)
+	}
+	sort.Strings(names)
+	for _, n := range names {
+		if !s.inlined[n] {
+			saved := s.sawReturn
+			s.walk(s.funcs[n], false, "", false)
+			s.sawReturn = saved
+		}
+	}
 	sort.SliceStable(s.Assigns, func(i, j int) bool { return s.Assigns[i].Line < s.Assigns[j].Line })
 	return s, nil
 }
@@ -117,6 +136,24 @@ func (s *Script) walkExpr(e ast.Expr) {
 				as = append(as, exprString(a))
 			}
 			s.CallSites = append(s.CallSites, CallSite{Name: dotted(x.Func), Args: as, Guard: s.curGuard, Line: x.Line()})
+			if body, ok := s.funcs[dotted(x.Func)]; ok && !s.inlining[dotted(x.Func)] {
+				// the assignments of a chunk-level function happen at the call, conditionally
+				if s.inlining == nil {
+					s.inlining = map[string]bool{}
+				}
+				s.inlining[dotted(x.Func)] = true
+				if s.inlined == nil {
+					s.inlined = map[string]bool{}
+				}
+				s.inlined[dotted(x.Func)] = true
+				savedLine, savedRet := s.lineOverride, s.sawReturn
+				if s.lineOverride == 0 {
+					s.lineOverride = x.Line()
+				}
+				s.walk(body, false, s.curGuard, s.curInLoop)
+				s.lineOverride, s.sawReturn = savedLine, savedRet
+				s.inlining[dotted(x.Func)] = false
+			}
 			s.walkExpr(x.Func)
 		}
 		if x.Receiver != nil {
@@ -183,6 +220,7 @@ func dotted(e ast.Expr) string {
 
 func (s *Script) walk(stmts []ast.Stmt, top bool, guard string, inLoop bool) {
 	for _, st := range stmts {
+		s.curInLoop = inLoop
 		switch x := st.(type) {
 		case *ast.AssignStmt:
 			for i, l := range x.Lhs {
@@ -203,7 +241,11 @@ func (s *Script) walk(stmts []ast.Stmt, top bool, guard string, inLoop bool) {
 					s.DynamicKeyAssigns = append(s.DynamicKeyAssigns, x.Line())
 					continue
 				}
-				a := Assign{Table: tbl, Key: key.Value, Line: x.Line(), TopLevel: top && !s.sawReturn, Guard: guard, InLoop: inLoop}
+				line := x.Line()
+				if s.lineOverride > 0 {
+					line = s.lineOverride
+				}
+				a := Assign{Table: tbl, Key: key.Value, Line: line, TopLevel: top && !s.sawReturn, Guard: guard, InLoop: inLoop}
 				if r != nil {
 					a.Rhs = exprString(r)
 				}
@@ -220,7 +262,15 @@ func (s *Script) walk(stmts []ast.Stmt, top bool, guard string, inLoop bool) {
 				s.Assigns = append(s.Assigns, a)
 			}
 		case *ast.LocalAssignStmt:
-			for _, r := range x.Exprs {
+			for i, r := range x.Exprs {
+				// `local function f(...) ... end`: the body runs where f is called, not where it is written
+				if fe, ok := r.(*ast.FunctionExpr); ok && i < len(x.Names) {
+					if s.funcs == nil {
+						s.funcs = map[string][]ast.Stmt{}
+					}
+					s.funcs[x.Names[i]] = fe.Stmts
+					continue
+				}
 				s.walkExpr(r)
 			}
 		case *ast.FuncCallStmt:
@@ -250,6 +300,16 @@ func (s *Script) walk(stmts []ast.Stmt, top bool, guard string, inLoop bool) {
 			s.walk(x.Stmts, top, guard, inLoop)
 		case *ast.FuncDefStmt:
 			if x.Func != nil {
+				// a plain named function: its body is accounted for at its call sites
+				if x.Name != nil && x.Name.Func != nil && x.Name.Receiver == nil {
+					if id, ok := x.Name.Func.(*ast.IdentExpr); ok {
+						if s.funcs == nil {
+							s.funcs = map[string][]ast.Stmt{}
+						}
+						s.funcs[id.Value] = x.Func.Stmts
+						continue
+					}
+				}
 				saved := s.sawReturn // a return inside a function definition does not leave the chunk
 				s.walk(x.Func.Stmts, false, "", false)
 				s.sawReturn = saved
